@@ -420,6 +420,10 @@ class FnExec:
     def at_exit(self, st, sig):
         if sig is FALL:
             sig = ("ret", NONE)
+        if sig[0] in ("ret", "raise"):
+            how = "return" if sig[0] == "ret" else f"raise:{sig[1].t}"
+            for name, e in self.c.always:
+                self.oblige(st, f"always[{name}]@{how}", self.truth(self.ev_spec(e, st)), "always")
         if sig[0] == "ret" and self.c.generator:
             uses = self.inst_uses(self.c.use, st, None)
             for name, e in self.c.ends:
@@ -717,6 +721,9 @@ class FnExec:
                 yield st1, ("raise", v.exc)
             elif v.kind == "exc":
                 yield st1, ("raise", v)
+            elif v.kind == "func" and v.t[0] in ("builtin", "class") and (
+                    v.t[1].split(".")[-1] in EXC_PARENTS or (v.t[0] == "class" and self.eng.spec.is_exception_class(v.t[1]))):
+                yield st1, ("raise", SV("exc", v.t[1].split(".")[-1]))     # `raise ExcClass`
             else:
                 raise Unsupported(f"raise of {v.kind}")
 
@@ -858,8 +865,8 @@ class FnExec:
             elif n in st.env and st.env[n].kind == "tuple":
                 raise Unsupported(f"havoc of tuple variable {n}")
         for (key, attr), v in list(st.heap.items()):
-            if key in refs and v.kind == "arr":
-                st.heap[(key, attr)] = SV("arr", fresh(f"{key}.{attr}", v.t.sort()))
+            if key in refs and v.kind in ("arr", "objseq"):
+                st.heap[(key, attr)] = SV(v.kind, fresh(f"{key}.{attr}", v.t.sort()))
             elif key in refs and v.kind in ("int", "bool", "bytes", "str", "obj"):
                 nv = fresh_sv(f"{key}.{attr}", v.kind)
                 if nv.kind == "bytes":
@@ -1704,6 +1711,21 @@ class FnExec:
             return
         raise Unsupported(f"attribute {attr} of {v.kind}")
 
+    def e_Await(self, node, st):
+        for st1, v in self.ev(node.value, st):
+            if isinstance(v, Raised):
+                yield st1, v
+                continue
+            if v.kind != "aw":
+                raise Unsupported(f"await of {v.kind}")
+            r = self.eng.spec._plug("await_hook", self, st1, v)
+            if r is None:
+                raise Unsupported(f"await of {v.t[0]}")
+            yield from r
+
+    def s_AsyncFor(self, node, st):
+        yield from self.s_For(node, st)
+
     def e_Call(self, node, st):
         # special forms in spec expressions
         if self.is_spec and isinstance(node.func, ast.Name):
@@ -1876,7 +1898,7 @@ class FnExec:
             self.havoc_modified(c, cst, s_r)
             rpost = State()
             rpost.pc, rpost.env, rpost.heap, rpost.ghost = s_r.pc, dict(cst.env), s_r.heap, dict(cst.ghost)
-            for e2, post in c.on_raise:
+            for e2, post in list(c.on_raise) + [("BaseException", a_[1]) for a_ in c.always]:
                 if exc_isinstance(exc, e2):
                     sub_r = FnExec.__new__(FnExec)
                     sub_r.__dict__.update(sub.__dict__)
@@ -1899,11 +1921,15 @@ class FnExec:
         sub2 = FnExec.__new__(FnExec)
         sub2.__dict__.update(sub.__dict__)
         sub2.entry = cst
-        for name, e in c.ensures:
+        for name, e in list(c.ensures) + list(c.always):
             s_n.assume(sub2.truth(sub2.ev_spec(e, post, result=res)))
         post.pc = s_n.pc
         if self.feasible(s_n):
             yield s_n, res
+        elif self.feasible(st) and not c.raises:
+            # the callee's postcondition contradicts what the caller knows: a frame/modifies mistake in the
+            # contracts would silently drop this path -> report instead of proving vacuously
+            raise Unsupported(f"vacuous call: postcondition of {qualname} is inconsistent with the caller's state at line {node.lineno}")
 
     def havoc_modified(self, c, cst, st):
         refs = set()
@@ -1911,6 +1937,9 @@ class FnExec:
             v = cst.env.get(p)
             if v is not None and v.kind == "ref":
                 refs.add(v.t)
+                extra = self.eng.spec._plug("modified_keys", self, v)
+                if extra:
+                    refs |= set(extra)
         if refs:
             st.heap = dict(st.heap)
             self.havoc(st, [], refs)
